@@ -2,7 +2,7 @@
 (* Trace validation for the composed pipeline (harness/c01).  One event per driver action, written after the call into
    the node has returned (every call chain of the composition is synchronous), with everything the call caused:
      {"ev":"Reset","sid":k,"n":N,"t":threshold the executor configured (cluster.Threshold),"byz":[..],"nv":NV,..}
-     {"ev":"Decide","i":node,"c":cand,"err":b}                                   DutyDB.Store through the consensus subscriber
+     {"ev":"Decide","i":node,"c":cand,"by":"driver"|"qbft","err":b}             DutyDB.Store through the consensus subscriber
      {"ev":"VCSign","i":node,"vs":[v..],"blocked":TRUE}                           nothing was ever stored: the query would block
      {"ev":"VCSign","i":node,"vs":[v..],"good":b,"blocked":FALSE,"signed":[cand the DutyDB served, per v],
                     "err":b,"out":[outbox ids added],"emit":[{"v","c","ok"}..]}
@@ -21,7 +21,10 @@ OutOf(o) == IF o = 0 THEN <<>> ELSE <<o>>
 Outputs == /\ Ev.err = res'.err /\ Ev.emit = EmitOf(res'.emit) /\ Ev.out = OutOf(res'.out)
 TReset == /\ IsEvent("Reset") /\ UNCHANGED vars
           /\ Ev.n = N /\ Ev.t = Thr /\ SeqToSet(Ev.byz) = Byz /\ Ev.nv = NV
+\* a decision produced by the real consensus component inside the composition (by = "qbft") is an output of the system: it
+\* must agree with every earlier decision; a decision scripted by the driver (by = "driver") is an environment move
 TDecide == /\ IsEvent("Decide") /\ Decide(Ev.i, Ev.c) /\ Ev.err = res'.err
+           /\ Ev.by = "qbft" => (decided \subseteq {Ev.c} /\ ~Ev.err)
 TVCSign == /\ IsEvent("VCSign")
            /\ IF Ev.blocked
                 THEN Ev.i \in Honest /\ alive[Ev.i] /\ stored[Ev.i] = "none" /\ UNCHANGED vars
